@@ -5,6 +5,7 @@ package props
 import (
 	"encoding/json"
 	"fmt"
+	"math/rand"
 	"sort"
 	"strings"
 	"testing"
@@ -106,6 +107,8 @@ func Execute(t *testing.T, p *Prop, sc *world.Scenario) (out *Outcome) {
 			panic(r)
 		}
 	}()
+	// client-go's elector jitters its retry period with the global math/rand source: pin it per run
+	rand.Seed(int64(sc.Seed))
 	synctest.Test(t, func(t *testing.T) {
 		if p.Custom != nil {
 			p.Custom(t, sc, out)
